@@ -249,3 +249,333 @@ package pokertable
 //@             && cbCall(3, "pokertable.TableEngine.OnAutoGameOpenEnd", callbacks.OnAutoGameOpenEnd)
 //@             && cbCall(2, "pokertable.TableEngine.OnReadyOpenFirstTableGame", callbacks.OnReadyOpenFirstTableGame)
 //@   ensures one-engine: forall(k, 1, 10, callrecv(ncalls() - k) == callrecv(ncalls() - 1))
+
+// ---- pokerface helpers (dependency; verified against the module-cache source) ------------------
+
+//@ spec hasAct(gs, idx, a) = 0 <= idx && idx < len(gs.Players) && gs.Players[idx] != nil
+//@     && exists(j, 0, len(gs.Players[idx].AllowedActions), gs.Players[idx].AllowedActions[j] == a)
+//@ spec hasPos(gs, idx, p) = 0 <= idx && idx < len(gs.Players) && gs.Players[idx] != nil
+//@     && exists(j, 0, len(gs.Players[idx].Positions), gs.Players[idx].Positions[j] == p)
+
+//@ func extern github.com/weedbox/pokerface::(*GameState).HasAction
+//@   property C10 C18 C19
+//@   returns r
+//@   requires gs != nil
+//@   modifies nothing
+//@   loop 0 invariant -1 <= rangeindex && rangeindex < len(gs.Players[idx].AllowedActions)
+//@             && forall(j, 0, rangeindex + 1, gs.Players[idx].AllowedActions[j] != action)
+//@   loop 0 decreases len(gs.Players[idx].AllowedActions) - rangeindex
+//@   ensures r <==> hasAct(gs, idx, action)
+
+//@ func extern github.com/weedbox/pokerface::(*GameState).HasPosition
+//@   property C11 C18 C19
+//@   returns r
+//@   requires gs != nil
+//@   modifies nothing
+//@   loop 0 invariant -1 <= rangeindex && rangeindex < len(gs.Players[idx].Positions)
+//@             && forall(j, 0, rangeindex + 1, gs.Players[idx].Positions[j] != position)
+//@   loop 0 decreases len(gs.Players[idx].Positions) - rangeindex
+//@   ensures r <==> hasPos(gs, idx, position)
+
+// ---- game.go: one hand's driver (C10, C13) ------------------------------------------------------
+// GameBackend is an open interface: its calls are logged. updateGameState (clone + channel send)
+// is outside the verifier's subset and carries a trusted contract.
+
+//@ devirt Game = (*game)
+
+//@ func (*game).updateGameState
+//@   trusted clones the state it is given into g.gs and enqueues it for the updater goroutine (channel send: outside the subset)
+//@   modifies g.gs, log
+//@   ensures g.gs != nil && fresh(g.gs) && ncalls() == old(ncalls()) + 1 && callfn(old(ncalls())) == "game.enqueue" && callarg(old(ncalls()), 0) == ref(gs)
+
+//@ spec curOK(g, k) = 0 <= k && k < len(g.gs.Players) && g.gs.Players[k] != nil && g.gs.Status.CurrentPlayer == k
+//@ spec backendCall(g, name) = ncalls() >= old(ncalls()) + 1 && callfn(old(ncalls())) == name && callrecv(old(ncalls())) == ref(old(g.backend)) && callarg(old(ncalls()), 0) == ref(old(g.gs))
+//@ spec applied(g, r) = ncalls() == old(ncalls()) + 2 && callfn(old(ncalls()) + 1) == "game.enqueue" && callarg(old(ncalls()) + 1, 0) == callres(old(ncalls()), 0) && r == g.gs && g.gs != nil
+
+//@ func (*game).Pass
+//@   property C10 C13
+//@   returns r, err
+//@   requires g != nil && g.gs != nil
+//@   modifies g.gs, log
+//@   ensures out-of-turn-refused: !old(curOK(g, playerIdx)) ==> err != nil && noCall() && unchanged(g.gs) && r == g.gs
+//@   ensures refusal-kind: !old(curOK(g, playerIdx)) ==> err == ErrGamePlayerNotFound || err == ErrGameInvalidAction
+//@   ensures one-backend-call: old(curOK(g, playerIdx)) ==> backendCall(g, "pokertable.GameBackend.Pass") && err == callres(old(ncalls()), 1)
+//@   ensures failure-is-identity: err != nil ==> unchanged(g.gs) && r == g.gs && ncalls() <= old(ncalls()) + 1
+//@   ensures success-applied-once: err == nil ==> applied(g, r)
+
+//@ func (*game).Fold
+//@   property C10 C13
+//@   returns r, err
+//@   requires g != nil && g.gs != nil
+//@   modifies g.gs, log
+//@   ensures out-of-turn-refused: !old(curOK(g, playerIdx)) ==> err != nil && noCall() && unchanged(g.gs) && r == g.gs
+//@   ensures refusal-kind: !old(curOK(g, playerIdx)) ==> err == ErrGamePlayerNotFound || err == ErrGameInvalidAction
+//@   ensures one-backend-call: old(curOK(g, playerIdx)) ==> backendCall(g, "pokertable.GameBackend.Fold") && err == callres(old(ncalls()), 1)
+//@   ensures failure-is-identity: err != nil ==> unchanged(g.gs) && r == g.gs && ncalls() <= old(ncalls()) + 1
+//@   ensures success-applied-once: err == nil ==> applied(g, r)
+
+//@ func (*game).Check
+//@   property C10 C13
+//@   returns r, err
+//@   requires g != nil && g.gs != nil
+//@   modifies g.gs, log
+//@   ensures out-of-turn-refused: !old(curOK(g, playerIdx)) ==> err != nil && noCall() && unchanged(g.gs) && r == g.gs
+//@   ensures refusal-kind: !old(curOK(g, playerIdx)) ==> err == ErrGamePlayerNotFound || err == ErrGameInvalidAction
+//@   ensures one-backend-call: old(curOK(g, playerIdx)) ==> backendCall(g, "pokertable.GameBackend.Check") && err == callres(old(ncalls()), 1)
+//@   ensures failure-is-identity: err != nil ==> unchanged(g.gs) && r == g.gs && ncalls() <= old(ncalls()) + 1
+//@   ensures success-applied-once: err == nil ==> applied(g, r)
+
+//@ func (*game).Call
+//@   property C10 C13
+//@   returns r, err
+//@   requires g != nil && g.gs != nil
+//@   modifies g.gs, log
+//@   ensures out-of-turn-refused: !old(curOK(g, playerIdx)) ==> err != nil && noCall() && unchanged(g.gs) && r == g.gs
+//@   ensures refusal-kind: !old(curOK(g, playerIdx)) ==> err == ErrGamePlayerNotFound || err == ErrGameInvalidAction
+//@   ensures one-backend-call: old(curOK(g, playerIdx)) ==> backendCall(g, "pokertable.GameBackend.Call") && err == callres(old(ncalls()), 1)
+//@   ensures failure-is-identity: err != nil ==> unchanged(g.gs) && r == g.gs && ncalls() <= old(ncalls()) + 1
+//@   ensures success-applied-once: err == nil ==> applied(g, r)
+
+//@ func (*game).Allin
+//@   property C10 C13
+//@   returns r, err
+//@   requires g != nil && g.gs != nil
+//@   modifies g.gs, log
+//@   ensures out-of-turn-refused: !old(curOK(g, playerIdx)) ==> err != nil && noCall() && unchanged(g.gs) && r == g.gs
+//@   ensures refusal-kind: !old(curOK(g, playerIdx)) ==> err == ErrGamePlayerNotFound || err == ErrGameInvalidAction
+//@   ensures one-backend-call: old(curOK(g, playerIdx)) ==> backendCall(g, "pokertable.GameBackend.Allin") && err == callres(old(ncalls()), 1)
+//@   ensures failure-is-identity: err != nil ==> unchanged(g.gs) && r == g.gs && ncalls() <= old(ncalls()) + 1
+//@   ensures success-applied-once: err == nil ==> applied(g, r)
+
+//@ func (*game).Bet
+//@   property C10 C13
+//@   returns r, err
+//@   requires g != nil && g.gs != nil
+//@   modifies g.gs, log
+//@   ensures out-of-turn-refused: !old(curOK(g, playerIdx)) ==> err != nil && noCall() && unchanged(g.gs) && r == g.gs
+//@   ensures refusal-kind: !old(curOK(g, playerIdx)) ==> err == ErrGamePlayerNotFound || err == ErrGameInvalidAction
+//@   ensures one-backend-call: old(curOK(g, playerIdx)) ==> backendCall(g, "pokertable.GameBackend.Bet") && callarg(old(ncalls()), 1) == chips && err == callres(old(ncalls()), 1)
+//@   ensures failure-is-identity: err != nil ==> unchanged(g.gs) && r == g.gs && ncalls() <= old(ncalls()) + 1
+//@   ensures success-applied-once: err == nil ==> applied(g, r)
+
+//@ func (*game).Raise
+//@   property C10 C13
+//@   returns r, err
+//@   requires g != nil && g.gs != nil
+//@   modifies g.gs, log
+//@   ensures out-of-turn-refused: !old(curOK(g, playerIdx)) ==> err != nil && noCall() && unchanged(g.gs) && r == g.gs
+//@   ensures refusal-kind: !old(curOK(g, playerIdx)) ==> err == ErrGamePlayerNotFound || err == ErrGameInvalidAction
+//@   ensures one-backend-call: old(curOK(g, playerIdx)) ==> backendCall(g, "pokertable.GameBackend.Raise") && callarg(old(ncalls()), 1) == chipLevel && err == callres(old(ncalls()), 1)
+//@   ensures failure-is-identity: err != nil ==> unchanged(g.gs) && r == g.gs && ncalls() <= old(ncalls()) + 1
+//@   ensures success-applied-once: err == nil ==> applied(g, r)
+
+//@ func (*game).Ready
+//@   property C10 C13
+//@   returns r, err
+//@   requires g != nil && g.gs != nil
+//@   modifies log
+//@   ensures not-asked-refused: !old(hasAct(g.gs, playerIdx, "ready")) ==> err != nil && noCall()
+//@   ensures accepted: old(hasAct(g.gs, playerIdx, "ready")) && g.rg != nil ==> err == nil && ncalls() == old(ncalls()) + 1
+//@             && callfn(old(ncalls())) == "(*syncsaga.ReadyGroup).Ready" && callrecv(old(ncalls())) == ref(g.rg) && callarg(old(ncalls()), 0) == playerIdx
+//@   ensures state-kept: r == g.gs
+
+// ---- table bookkeeping: id <-> index translation (C02) -----------------------------------------
+
+//@ spec tPS(t) = t.State.PlayerStates
+//@ spec tGPI(t) = t.State.GamePlayerIndexes
+
+//@ func (Table).FindGamePlayerIdx
+//@   property C02 C10
+//@   returns r
+//@   requires t.State != nil && forall(j, 0, len(tGPI(t)), 0 <= tGPI(t)[j] && (tGPI(t)[j] < len(tPS(t)) ==> tPS(t)[tGPI(t)[j]] != nil))
+//@   modifies nothing
+//@   loop 0 invariant -1 <= rangeindex && rangeindex < len(tGPI(t))
+//@             && forall(j, 0, rangeindex + 1, tGPI(t)[j] >= len(tPS(t)) || tPS(t)[tGPI(t)[j]].PlayerID != playerID)
+//@   loop 0 decreases len(tGPI(t)) - rangeindex
+//@   ensures found: r != -1 ==> 0 <= r && r < len(tGPI(t)) && tGPI(t)[r] < len(tPS(t)) && tPS(t)[tGPI(t)[r]].PlayerID == playerID
+//@   ensures first: r != -1 ==> forall(j, 0, r, tGPI(t)[j] >= len(tPS(t)) || tPS(t)[tGPI(t)[j]].PlayerID != playerID)
+//@   ensures not-found: r == -1 ==> forall(j, 0, len(tGPI(t)), tGPI(t)[j] >= len(tPS(t)) || tPS(t)[tGPI(t)[j]].PlayerID != playerID)
+
+//@ func (Table).FindPlayerIdx
+//@   property C02 C03
+//@   returns r
+//@   requires t.State != nil && forall(j, 0, len(tPS(t)), tPS(t)[j] != nil)
+//@   modifies nothing
+//@   loop 0 invariant -1 <= rangeindex && rangeindex < len(tPS(t)) && forall(j, 0, rangeindex + 1, tPS(t)[j].PlayerID != playerID)
+//@   loop 0 decreases len(tPS(t)) - rangeindex
+//@   ensures found: r != -1 ==> 0 <= r && r < len(tPS(t)) && tPS(t)[r].PlayerID == playerID && forall(j, 0, r, tPS(t)[j].PlayerID != playerID)
+//@   ensures not-found: r == -1 ==> forall(j, 0, len(tPS(t)), tPS(t)[j].PlayerID != playerID)
+
+//@ func (Table).FindPlayerIndexFromGamePlayerIndex
+//@   property C02
+//@   returns r
+//@   requires t.State != nil && (0 <= gamePlayerIdx && gamePlayerIdx < len(tPS(t)) ==> gamePlayerIdx < len(tGPI(t)))
+//@   modifies nothing
+//@   ensures out-of-range: gamePlayerIdx < 0 || gamePlayerIdx >= len(tPS(t)) ==> r == -1
+//@   ensures translated: 0 <= gamePlayerIdx && gamePlayerIdx < len(tPS(t)) ==> r == ite(tGPI(t)[gamePlayerIdx] >= len(tPS(t)), -1, tGPI(t)[gamePlayerIdx])
+
+// ---- table engine: shapes -----------------------------------------------------------------------
+// Bounded quantifiers over players use the constant 10, the largest table the properties speak of.
+
+//@ axiom pokerface.GameEventBySymbol != nil && pokerface.GameEventSymbols != nil
+
+//@ spec St(te) = te.table.State
+//@ spec PS(te) = te.table.State.PlayerStates
+//@ spec GPI(te) = te.table.State.GamePlayerIndexes
+//@ spec MaxSeats(te) = te.table.Meta.TableMaxSeatCount
+//@ spec EngShape(te) = te != nil && te.table != nil && St(te) != nil && 2 <= MaxSeats(te) && MaxSeats(te) <= 10
+//@     && 0 <= len(PS(te)) && len(PS(te)) <= MaxSeats(te)
+//@     && forall(i, 0, 10, i < len(PS(te)) ==> PS(te)[i] != nil)
+//@     && forall(i, 0, 10, forall(j, 0, 10, i < j && j < len(PS(te)) ==> PS(te)[i] != PS(te)[j]))
+//@ spec HandShape(te) = 0 <= len(GPI(te)) && len(GPI(te)) <= len(PS(te))
+//@     && forall(k, 0, 10, k < len(GPI(te)) ==> 0 <= GPI(te)[k] && GPI(te)[k] < len(PS(te)))
+// shape of a hand state as produced by the game backend (assumed of GameBackend implementations; pokerface never stores nil players)
+//@ spec GsShape(gs) = 0 <= len(gs.Players) && len(gs.Players) <= 10 && forall(k, 0, 10, k < len(gs.Players) ==> gs.Players[k] != nil)
+//@ spec TableGsOK(te) = St(te).GameState != nil ==> GsShape(St(te).GameState)
+//@ spec playing(te) = St(te).Status == TableStateStatus_TableGamePlaying
+//@ spec GameOn(te) = playing(te) ==> ref(te.game) != 0 && typeis(te.game, "*pokertable.game") && te.game.gs != nil
+// gidx(te, id, k): k is the hand index under which player id plays (first match, as FindGamePlayerIdx)
+//@ spec gidx(te, id, k) = 0 <= k && k < len(GPI(te)) && PS(te)[GPI(te)[k]].PlayerID == id && forall(j, 0, k, PS(te)[GPI(te)[j]].PlayerID != id)
+//@ spec inHand(te, id) = exists(k, 0, 10, gidx(te, id, k))
+//@ spec statsSame(te) = forall(i, 0, 10, i < len(PS(te)) ==> PS(te)[i].GameStatistics == old(PS(te)[i].GameStatistics))
+//@ spec statsSameExcept(te, p) = forall(i, 0, 10, i < len(PS(te)) && PS(te)[i] != p ==> PS(te)[i].GameStatistics == old(PS(te)[i].GameStatistics))
+// a raise may clear the 3-bet flag of the other players and changes nothing else of theirs
+//@ spec statsSameExcept3B(te, p) = forall(i, 0, 10, i < len(PS(te)) && PS(te)[i] != p ==>
+//@       setfield(PS(te)[i].GameStatistics, "Is3B", false) == setfield(old(PS(te)[i].GameStatistics), "Is3B", false)
+//@       && (PS(te)[i].GameStatistics.Is3B ==> old(PS(te)[i].GameStatistics.Is3B)))
+
+// did-X implies had-the-chance-X, counters consistent (C14)
+//@ spec StatsWF(g) = 0 <= g.RaiseTimes && 0 <= g.CallTimes && 0 <= g.CheckTimes && g.RaiseTimes + g.CallTimes + g.CheckTimes <= g.ActionTimes
+//@     && (g.IsVPIP ==> g.IsVPIPChance) && (g.IsPFR ==> g.IsPFRChance) && (g.IsATS ==> g.IsATSChance) && (g.Is3B ==> g.Is3BChance)
+//@     && (g.IsFt3B ==> g.IsFt3BChance) && (g.IsCheckRaise ==> g.IsCheckRaiseChance) && (g.IsCBet ==> g.IsCBetChance) && (g.IsFtCB ==> g.IsFtCBChance)
+//@     && (g.IsShowdownWinning ==> g.ShowdownWinningChance) && (g.FoldRound != "" ==> g.IsFold)
+//@ spec StatsInv(te) = forall(i, 0, 10, i < len(PS(te)) ==> StatsWF(PS(te)[i].GameStatistics))
+//@     && forall(i, 0, 10, forall(j, 0, 10, i < j && j < len(PS(te)) ==> !(PS(te)[i].GameStatistics.Is3B && PS(te)[j].GameStatistics.Is3B)))
+//@ spec LPA(te) = St(te).LastPlayerGameAction
+//@ spec published(te, id, action, p) = LPA(te) != nil && fresh(LPA(te)) && LPA(te).PlayerID == id && LPA(te).Action == action && LPA(te).Seat == p.Seat
+//@     && LPA(te).GameCount == St(te).GameCount && LPA(te).TableID == te.table.ID
+//@     && (St(te).GameState != nil ==> LPA(te).GameID == St(te).GameState.GameID && LPA(te).Round == St(te).GameState.Status.Round)
+
+//@ func (*tableEngine).refreshThreeBet
+//@   inline
+//@   loop 0 unroll 10
+//@   loop 1 unroll 10
+//@   loop 2 unroll 10
+
+//@ func (*tableEngine).PlayerFold
+//@   property C02 C10 C13 C14 C16
+//@   returns err
+//@   requires EngShape(te) && HandShape(te) && GameOn(te) && TableGsOK(te) && StatsInv(te) && !held(te.lock)
+//@   modifies St(te).LastPlayerGameAction, forall(i, 0, 10, PS(te)[i].GameStatistics), te.game.gs, log
+//@   ensures not-playing-refused: !playing(te) ==> err != nil && noCall()
+//@   ensures stranger-refused: !inHand(te, playerID) ==> err != nil && noCall()
+//@   ensures out-of-turn-refused: playing(te) ==> forall(k, 0, 10, gidx(te, playerID, k) && !old(curOK(te.game, k)) ==> err != nil && noCall())
+//@   ensures refused-leaves-no-trace: err != nil ==> unchanged(LPA(te)) && statsSame(te) && unchanged(te.game.gs)
+//@   ensures accepted-only-in-turn: err == nil ==> playing(te) && exists(k, 0, 10, gidx(te, playerID, k) && old(curOK(te.game, k)))
+//@   ensures accepted-is-published: err == nil ==> forall(k, 0, 10, gidx(te, playerID, k) ==> published(te, playerID, "fold", PS(te)[GPI(te)[k]]))
+//@   ensures accepted-emits-one-event: err == nil ==> callfn(ncalls() - 1) == "callback:onGamePlayerActionUpdated"
+//@   ensures stats-inv: StatsInv(te)
+//@   ensures stats-others: err == nil ==> forall(k, 0, 10, gidx(te, playerID, k) ==> statsSameExcept(te, PS(te)[GPI(te)[k]]))
+//@   ensures counts: err == nil ==> forall(k, 0, 10, gidx(te, playerID, k) ==> PS(te)[GPI(te)[k]].GameStatistics.ActionTimes == old(PS(te)[GPI(te)[k]].GameStatistics.ActionTimes) + 1 && PS(te)[GPI(te)[k]].GameStatistics.RaiseTimes == old(PS(te)[GPI(te)[k]].GameStatistics.RaiseTimes) && PS(te)[GPI(te)[k]].GameStatistics.CallTimes == old(PS(te)[GPI(te)[k]].GameStatistics.CallTimes) && PS(te)[GPI(te)[k]].GameStatistics.CheckTimes == old(PS(te)[GPI(te)[k]].GameStatistics.CheckTimes))
+//@   ensures fold-flag: err == nil ==> forall(k, 0, 10, gidx(te, playerID, k) ==> PS(te)[GPI(te)[k]].GameStatistics.IsFold && PS(te)[GPI(te)[k]].GameStatistics.FoldRound == te.game.gs.Status.Round)
+
+//@ func (*tableEngine).PlayerCheck
+//@   property C02 C10 C13 C14 C16
+//@   returns err
+//@   requires EngShape(te) && HandShape(te) && GameOn(te) && TableGsOK(te) && StatsInv(te) && !held(te.lock)
+//@   modifies St(te).LastPlayerGameAction, forall(i, 0, 10, PS(te)[i].GameStatistics), te.game.gs, log
+//@   ensures not-playing-refused: !playing(te) ==> err != nil && noCall()
+//@   ensures stranger-refused: !inHand(te, playerID) ==> err != nil && noCall()
+//@   ensures out-of-turn-refused: playing(te) ==> forall(k, 0, 10, gidx(te, playerID, k) && !old(curOK(te.game, k)) ==> err != nil && noCall())
+//@   ensures refused-leaves-no-trace: err != nil ==> unchanged(LPA(te)) && statsSame(te) && unchanged(te.game.gs)
+//@   ensures accepted-only-in-turn: err == nil ==> playing(te) && exists(k, 0, 10, gidx(te, playerID, k) && old(curOK(te.game, k)))
+//@   ensures accepted-is-published: err == nil ==> forall(k, 0, 10, gidx(te, playerID, k) ==> published(te, playerID, "check", PS(te)[GPI(te)[k]]))
+//@   ensures accepted-emits-one-event: err == nil ==> callfn(ncalls() - 1) == "callback:onGamePlayerActionUpdated"
+//@   ensures stats-inv: StatsInv(te)
+//@   ensures stats-others: err == nil ==> forall(k, 0, 10, gidx(te, playerID, k) ==> statsSameExcept(te, PS(te)[GPI(te)[k]]))
+//@   ensures counts: err == nil ==> forall(k, 0, 10, gidx(te, playerID, k) ==> PS(te)[GPI(te)[k]].GameStatistics.ActionTimes == old(PS(te)[GPI(te)[k]].GameStatistics.ActionTimes) + 1 && PS(te)[GPI(te)[k]].GameStatistics.RaiseTimes == old(PS(te)[GPI(te)[k]].GameStatistics.RaiseTimes) && PS(te)[GPI(te)[k]].GameStatistics.CallTimes == old(PS(te)[GPI(te)[k]].GameStatistics.CallTimes) && PS(te)[GPI(te)[k]].GameStatistics.CheckTimes == old(PS(te)[GPI(te)[k]].GameStatistics.CheckTimes) + 1)
+//@   ensures fold-flag: err == nil ==> forall(k, 0, 10, gidx(te, playerID, k) ==> PS(te)[GPI(te)[k]].GameStatistics.IsFold == old(PS(te)[GPI(te)[k]].GameStatistics.IsFold) && PS(te)[GPI(te)[k]].GameStatistics.FoldRound == old(PS(te)[GPI(te)[k]].GameStatistics.FoldRound))
+
+//@ func (*tableEngine).PlayerCall
+//@   property C02 C10 C13 C14 C16
+//@   returns err
+//@   requires EngShape(te) && HandShape(te) && GameOn(te) && TableGsOK(te) && StatsInv(te) && !held(te.lock)
+//@   modifies St(te).LastPlayerGameAction, forall(i, 0, 10, PS(te)[i].GameStatistics), te.game.gs, log
+//@   ensures not-playing-refused: !playing(te) ==> err != nil && noCall()
+//@   ensures stranger-refused: !inHand(te, playerID) ==> err != nil && noCall()
+//@   ensures out-of-turn-refused: playing(te) ==> forall(k, 0, 10, gidx(te, playerID, k) && !old(curOK(te.game, k)) ==> err != nil && noCall())
+//@   ensures refused-leaves-no-trace: err != nil ==> unchanged(LPA(te)) && statsSame(te) && unchanged(te.game.gs)
+//@   ensures accepted-only-in-turn: err == nil ==> playing(te) && exists(k, 0, 10, gidx(te, playerID, k) && old(curOK(te.game, k)))
+//@   ensures accepted-is-published: err == nil ==> forall(k, 0, 10, gidx(te, playerID, k) ==> published(te, playerID, "call", PS(te)[GPI(te)[k]]))
+//@   ensures accepted-emits-one-event: err == nil ==> callfn(ncalls() - 1) == "callback:onGamePlayerActionUpdated"
+//@   ensures stats-inv: StatsInv(te)
+//@   ensures stats-others: err == nil ==> forall(k, 0, 10, gidx(te, playerID, k) ==> statsSameExcept(te, PS(te)[GPI(te)[k]]))
+//@   ensures counts: err == nil ==> forall(k, 0, 10, gidx(te, playerID, k) ==> PS(te)[GPI(te)[k]].GameStatistics.ActionTimes == old(PS(te)[GPI(te)[k]].GameStatistics.ActionTimes) + 1 && PS(te)[GPI(te)[k]].GameStatistics.RaiseTimes == old(PS(te)[GPI(te)[k]].GameStatistics.RaiseTimes) && PS(te)[GPI(te)[k]].GameStatistics.CallTimes == old(PS(te)[GPI(te)[k]].GameStatistics.CallTimes) + 1 && PS(te)[GPI(te)[k]].GameStatistics.CheckTimes == old(PS(te)[GPI(te)[k]].GameStatistics.CheckTimes))
+//@   ensures fold-flag: err == nil ==> forall(k, 0, 10, gidx(te, playerID, k) ==> PS(te)[GPI(te)[k]].GameStatistics.IsFold == old(PS(te)[GPI(te)[k]].GameStatistics.IsFold) && PS(te)[GPI(te)[k]].GameStatistics.FoldRound == old(PS(te)[GPI(te)[k]].GameStatistics.FoldRound))
+
+//@ func (*tableEngine).PlayerRaise
+//@   property C02 C10 C13 C14 C16
+//@   returns err
+//@   requires EngShape(te) && HandShape(te) && GameOn(te) && TableGsOK(te) && StatsInv(te) && !held(te.lock)
+//@   modifies St(te).LastPlayerGameAction, forall(i, 0, 10, PS(te)[i].GameStatistics), te.game.gs, log
+//@   ensures not-playing-refused: !playing(te) ==> err != nil && noCall()
+//@   ensures stranger-refused: !inHand(te, playerID) ==> err != nil && noCall()
+//@   ensures out-of-turn-refused: playing(te) ==> forall(k, 0, 10, gidx(te, playerID, k) && !old(curOK(te.game, k)) ==> err != nil && noCall())
+//@   ensures refused-leaves-no-trace: err != nil ==> unchanged(LPA(te)) && statsSame(te) && unchanged(te.game.gs)
+//@   ensures accepted-only-in-turn: err == nil ==> playing(te) && exists(k, 0, 10, gidx(te, playerID, k) && old(curOK(te.game, k)))
+//@   ensures accepted-is-published: err == nil ==> forall(k, 0, 10, gidx(te, playerID, k) ==> published(te, playerID, "raise", PS(te)[GPI(te)[k]]))
+//@   ensures accepted-emits-one-event: err == nil ==> callfn(ncalls() - 1) == "callback:onGamePlayerActionUpdated"
+//@   ensures stats-inv: StatsInv(te)
+//@   ensures stats-others: err == nil ==> forall(k, 0, 10, gidx(te, playerID, k) ==> statsSameExcept3B(te, PS(te)[GPI(te)[k]]))
+//@   ensures counts: err == nil ==> forall(k, 0, 10, gidx(te, playerID, k) ==> PS(te)[GPI(te)[k]].GameStatistics.ActionTimes == old(PS(te)[GPI(te)[k]].GameStatistics.ActionTimes) + 1 && PS(te)[GPI(te)[k]].GameStatistics.RaiseTimes == old(PS(te)[GPI(te)[k]].GameStatistics.RaiseTimes) + 1 && PS(te)[GPI(te)[k]].GameStatistics.CallTimes == old(PS(te)[GPI(te)[k]].GameStatistics.CallTimes) && PS(te)[GPI(te)[k]].GameStatistics.CheckTimes == old(PS(te)[GPI(te)[k]].GameStatistics.CheckTimes))
+//@   ensures fold-flag: err == nil ==> forall(k, 0, 10, gidx(te, playerID, k) ==> PS(te)[GPI(te)[k]].GameStatistics.IsFold == old(PS(te)[GPI(te)[k]].GameStatistics.IsFold) && PS(te)[GPI(te)[k]].GameStatistics.FoldRound == old(PS(te)[GPI(te)[k]].GameStatistics.FoldRound))
+
+//@ func (*tableEngine).PlayerBet
+//@   property C02 C10 C13 C14 C16
+//@   returns err
+//@   requires EngShape(te) && HandShape(te) && GameOn(te) && TableGsOK(te) && StatsInv(te) && !held(te.lock)
+//@   modifies St(te).LastPlayerGameAction, forall(i, 0, 10, PS(te)[i].GameStatistics), te.game.gs, log
+//@   ensures not-playing-refused: !playing(te) ==> err != nil && noCall()
+//@   ensures stranger-refused: !inHand(te, playerID) ==> err != nil && noCall()
+//@   ensures out-of-turn-refused: playing(te) ==> forall(k, 0, 10, gidx(te, playerID, k) && !old(curOK(te.game, k)) ==> err != nil && noCall())
+//@   ensures refused-leaves-no-trace: err != nil ==> unchanged(LPA(te)) && statsSame(te) && unchanged(te.game.gs)
+//@   ensures accepted-only-in-turn: err == nil ==> playing(te) && exists(k, 0, 10, gidx(te, playerID, k) && old(curOK(te.game, k)))
+//@   ensures accepted-is-published: err == nil ==> forall(k, 0, 10, gidx(te, playerID, k) ==> published(te, playerID, "bet", PS(te)[GPI(te)[k]]))
+//@   ensures accepted-emits-one-event: err == nil ==> callfn(ncalls() - 1) == "callback:onGamePlayerActionUpdated"
+//@   ensures stats-inv: StatsInv(te)
+//@   ensures stats-others: err == nil ==> forall(k, 0, 10, gidx(te, playerID, k) ==> statsSameExcept(te, PS(te)[GPI(te)[k]]))
+//@   ensures counts: err == nil ==> forall(k, 0, 10, gidx(te, playerID, k) ==> PS(te)[GPI(te)[k]].GameStatistics.ActionTimes == old(PS(te)[GPI(te)[k]].GameStatistics.ActionTimes) + 1 && old(PS(te)[GPI(te)[k]].GameStatistics.RaiseTimes) <= PS(te)[GPI(te)[k]].GameStatistics.RaiseTimes && PS(te)[GPI(te)[k]].GameStatistics.RaiseTimes <= old(PS(te)[GPI(te)[k]].GameStatistics.RaiseTimes) + 1 && PS(te)[GPI(te)[k]].GameStatistics.CallTimes == old(PS(te)[GPI(te)[k]].GameStatistics.CallTimes) && PS(te)[GPI(te)[k]].GameStatistics.CheckTimes == old(PS(te)[GPI(te)[k]].GameStatistics.CheckTimes))
+//@   ensures fold-flag: err == nil ==> forall(k, 0, 10, gidx(te, playerID, k) ==> PS(te)[GPI(te)[k]].GameStatistics.IsFold == old(PS(te)[GPI(te)[k]].GameStatistics.IsFold) && PS(te)[GPI(te)[k]].GameStatistics.FoldRound == old(PS(te)[GPI(te)[k]].GameStatistics.FoldRound))
+
+//@ func (*tableEngine).PlayerAllin
+//@   property C02 C10 C13 C14 C16
+//@   returns err
+//@   requires EngShape(te) && HandShape(te) && GameOn(te) && TableGsOK(te) && StatsInv(te) && !held(te.lock)
+//@   modifies St(te).LastPlayerGameAction, forall(i, 0, 10, PS(te)[i].GameStatistics), te.game.gs, log
+//@   ensures not-playing-refused: !playing(te) ==> err != nil && noCall()
+//@   ensures stranger-refused: !inHand(te, playerID) ==> err != nil && noCall()
+//@   ensures out-of-turn-refused: playing(te) ==> forall(k, 0, 10, gidx(te, playerID, k) && !old(curOK(te.game, k)) ==> err != nil && noCall())
+//@   ensures refused-leaves-no-trace: err != nil ==> unchanged(LPA(te)) && statsSame(te) && unchanged(te.game.gs)
+//@   ensures accepted-only-in-turn: err == nil ==> playing(te) && exists(k, 0, 10, gidx(te, playerID, k) && old(curOK(te.game, k)))
+//@   ensures accepted-is-published: err == nil ==> forall(k, 0, 10, gidx(te, playerID, k) ==> published(te, playerID, "allin", PS(te)[GPI(te)[k]]))
+//@   ensures accepted-emits-one-event: err == nil ==> callfn(ncalls() - 1) == "callback:onGamePlayerActionUpdated"
+//@   ensures stats-inv: StatsInv(te)
+//@   ensures stats-others: err == nil ==> forall(k, 0, 10, gidx(te, playerID, k) ==> statsSameExcept3B(te, PS(te)[GPI(te)[k]]))
+//@   ensures counts: err == nil ==> forall(k, 0, 10, gidx(te, playerID, k) ==> PS(te)[GPI(te)[k]].GameStatistics.ActionTimes == old(PS(te)[GPI(te)[k]].GameStatistics.ActionTimes) + 1 && old(PS(te)[GPI(te)[k]].GameStatistics.RaiseTimes) <= PS(te)[GPI(te)[k]].GameStatistics.RaiseTimes && PS(te)[GPI(te)[k]].GameStatistics.RaiseTimes <= old(PS(te)[GPI(te)[k]].GameStatistics.RaiseTimes) + 1 && PS(te)[GPI(te)[k]].GameStatistics.CallTimes == old(PS(te)[GPI(te)[k]].GameStatistics.CallTimes) && PS(te)[GPI(te)[k]].GameStatistics.CheckTimes == old(PS(te)[GPI(te)[k]].GameStatistics.CheckTimes))
+//@   ensures fold-flag: err == nil ==> forall(k, 0, 10, gidx(te, playerID, k) ==> PS(te)[GPI(te)[k]].GameStatistics.IsFold == old(PS(te)[GPI(te)[k]].GameStatistics.IsFold) && PS(te)[GPI(te)[k]].GameStatistics.FoldRound == old(PS(te)[GPI(te)[k]].GameStatistics.FoldRound))
+
+//@ func (*tableEngine).PlayerPass
+//@   property C02 C10 C13 C14 C16
+//@   returns err
+//@   requires EngShape(te) && HandShape(te) && GameOn(te) && TableGsOK(te) && StatsInv(te) && !held(te.lock)
+//@   modifies St(te).LastPlayerGameAction, forall(i, 0, 10, PS(te)[i].GameStatistics), te.game.gs, log
+//@   ensures not-playing-refused: !playing(te) ==> err != nil && noCall()
+//@   ensures stranger-refused: !inHand(te, playerID) ==> err != nil && noCall()
+//@   ensures out-of-turn-refused: playing(te) ==> forall(k, 0, 10, gidx(te, playerID, k) && !old(curOK(te.game, k)) ==> err != nil && noCall())
+//@   ensures refused-leaves-no-trace: err != nil ==> unchanged(LPA(te)) && statsSame(te) && unchanged(te.game.gs)
+//@   ensures accepted-only-in-turn: err == nil ==> playing(te) && exists(k, 0, 10, gidx(te, playerID, k) && old(curOK(te.game, k)))
+//@   ensures accepted-is-published: err == nil ==> forall(k, 0, 10, gidx(te, playerID, k) ==> published(te, playerID, "pass", PS(te)[GPI(te)[k]]))
+//@   ensures accepted-emits-one-event: err == nil ==> callfn(ncalls() - 1) == "callback:onGamePlayerActionUpdated"
+//@   ensures stats-inv: StatsInv(te)
+//@   ensures stats-others: err == nil ==> forall(k, 0, 10, gidx(te, playerID, k) ==> statsSameExcept(te, PS(te)[GPI(te)[k]]))
+//@   ensures counts: err == nil ==> forall(k, 0, 10, gidx(te, playerID, k) ==> PS(te)[GPI(te)[k]].GameStatistics == old(PS(te)[GPI(te)[k]].GameStatistics))
